@@ -1,0 +1,100 @@
+//go:build verif
+
+// Package verifhook is instrumentation used only by the external verification
+// harness. It is compiled in with the "verif" build tag; without the tag every
+// function is an empty inlineable stub (see hook_off.go).
+package verifhook
+
+import (
+	"sync"
+	"sync/atomic"
+)
+
+// Enabled reports whether the hooks are compiled in.
+const Enabled = true
+
+type eventFn func(point string, kv ...any)
+type yieldFn func(point string)
+
+var (
+	eventSink atomic.Value // eventFn
+	yielder   atomic.Value // yieldFn
+	busy      int64
+	steps     int64
+	probesLk  sync.Mutex
+	probes    = map[any]func() bool{}
+)
+
+// SetEventSink installs the harness callback for Event.
+func SetEventSink(f func(point string, kv ...any)) { eventSink.Store(eventFn(f)) }
+
+// SetYield installs the harness callback for Yield.
+func SetYield(f func(point string)) { yielder.Store(yieldFn(f)) }
+
+// Event reports that execution reached a named point.
+func Event(point string, kv ...any) {
+	atomic.AddInt64(&steps, 1)
+	if f, ok := eventSink.Load().(eventFn); ok && f != nil {
+		f(point, kv...)
+	}
+}
+
+// Yield is a schedule perturbation point: the harness may delay the caller here.
+func Yield(point string) {
+	atomic.AddInt64(&steps, 1)
+	if f, ok := yielder.Load().(yieldFn); ok && f != nil {
+		f(point)
+	}
+}
+
+// Busy adjusts the count of in-flight internal work items (queued notification
+// commands, messages being sent) that are invisible at the public boundary.
+func Busy(delta int) {
+	atomic.AddInt64(&busy, int64(delta))
+	atomic.AddInt64(&steps, 1)
+}
+
+// BusyCount returns the current in-flight count.
+func BusyCount() int64 { return atomic.LoadInt64(&busy) }
+
+// Steps returns a counter that advances at every hook call.
+func Steps() int64 { return atomic.LoadInt64(&steps) }
+
+// RegisterProbe registers a function reporting whether an internal component
+// still has queued work.
+func RegisterProbe(key any, f func() bool) {
+	probesLk.Lock()
+	probes[key] = f
+	probesLk.Unlock()
+}
+
+// UnregisterProbe removes a probe.
+func UnregisterProbe(key any) {
+	probesLk.Lock()
+	delete(probes, key)
+	probesLk.Unlock()
+}
+
+// ProbesBusy reports whether any registered component has queued work.
+func ProbesBusy() bool {
+	probesLk.Lock()
+	fs := make([]func() bool, 0, len(probes))
+	for _, f := range probes {
+		fs = append(fs, f)
+	}
+	probesLk.Unlock()
+	for _, f := range fs {
+		if f() {
+			return true
+		}
+	}
+	return false
+}
+
+// Reset clears all hook state (between harness scenarios).
+func Reset() {
+	atomic.StoreInt64(&busy, 0)
+	probesLk.Lock()
+	probes = map[any]func() bool{}
+	probesLk.Unlock()
+}
